@@ -64,7 +64,18 @@ func runC01(c *fw.Ctx) {
 				c.Probe("derive_failed_skipped", 1)
 				return true
 			}
-			m = m2
+			// which of the objects now in memory signs: the child, the PARENT it was derived from (which
+			// must be unaffected), or the child after a second child has been derived from the parent
+			switch c.S.Draw(3, "derived-use") {
+			case 0:
+				m = m2
+			case 1:
+				histS += "+parent-reused"
+			case 2:
+				histS += "+sibling-derived"
+				_, _ = m.DeriveChild(drawIndex(c))
+				m = m2
+			}
 			Y = m.PublicKey(m.IDs[0])
 		}
 		return true
